@@ -58,7 +58,7 @@ STRING_EDITS = [
 
 
 def neighbours(prog, only=None):
-    res = _neighbours(prog)
+    res = [r for r in _neighbours(prog) if M.render(r[1]) != M.render(r[2])]
     if only:
         res = [r for r in res if any(o in r[0] for o in only)]
     return res
@@ -122,6 +122,8 @@ def _neighbours(prog):
                 b = copy.deepcopy(prog)
                 rb = M.returns(b["body"])[ri]
                 rb["groups"][j:j + 2] = [{"lit": M.lit_str(merged, _q(merged)), "w": g[j + 1]["w"]}]
+                if sum(float(x["w"]) for x in rb["groups"]) <= 0:
+                    continue  # would be an all-zero statement, which is refused by design
                 res.append(("one label spelling the tokens of two groups (return #%d)" % ri, copy.deepcopy(prog), b))
                 break
     # ---- an identifier operand vs the string literal with the same text
